@@ -3,6 +3,9 @@ use crate::Check;
 pub mod c01;
 pub mod c02;
 pub mod c03;
+pub mod c04;
+pub mod c05;
+pub mod c06;
 pub mod c07;
 pub mod c08;
 pub mod c11;
@@ -22,6 +25,9 @@ pub fn registry() -> &'static [Check] {
         Check { meta: &c01::META, run: c01::run, shards: (16, 16) },
         Check { meta: &c02::META, run: c02::run, shards: (16, 16) },
         Check { meta: &c03::META, run: c03::run, shards: (16, 16) },
+        Check { meta: &c04::META, run: c04::run, shards: (16, 16) },
+        Check { meta: &c05::META, run: c05::run, shards: (16, 16) },
+        Check { meta: &c06::META, run: c06::run, shards: (16, 16) },
         Check { meta: &c07::META, run: c07::run, shards: (16, 16) },
         Check { meta: &c08::META, run: c08::run, shards: (16, 16) },
         Check { meta: &c11::META, run: c11::run, shards: (16, 16) },
